@@ -528,6 +528,10 @@ func VerifyObjectCopyAccess(ctx context.Context, be backend.Backend, copySource 
 	if !found {
 		return s3err.GetAPIError(s3err.ErrInvalidCopySource)
 	}
+	// the version id is not part of the object name policies speak about
+	if i := strings.LastIndex(srcObject, "?versionId="); i != -1 {
+		srcObject = srcObject[:i]
+	}
 
 	// Get source bucket ACL
 	srcBucketACLBytes, err := be.GetBucketAcl(ctx, &s3.GetBucketAclInput{Bucket: &srcBucket})
